@@ -29,7 +29,7 @@ ASSUMPTIONS = [
     "metadata reads of input stores by from_zarr are allowed (inputs live in a separate store); visualize writes only the file it was asked to write",
 ]
 
-ACTIONS = ["plan", "plan-noopt", "plan-simple", "plan-fuse-all", "plan-multi", "visualize-dot", "visualize-svg", "visualize-hidden", "repr", "repr-html",
+ACTIONS = ["region-lazy-path", "plan", "plan-noopt", "plan-simple", "plan-fuse-all", "plan-multi", "visualize-dot", "visualize-svg", "visualize-hidden", "repr", "repr-html",
            "store-lazy", "to_zarr-lazy", "rechunk", "arrays-meta"]
 TRIGGERS = ["compute", "array", "scalar", "store-eager", "to_zarr-eager", "compute-method"]
 
@@ -58,7 +58,87 @@ def _dir_state(path):
     return "empty" if n == 0 else f"{n} entries"
 
 
+def check_rechunk_plan(case) -> Outcome:
+    """Multi-stage (possibly irregular) rechunks under tight memory: building, plan(), visualize(), repr must write nothing."""
+    import cubed
+    import cubed.array_api as xp
+    from zarr.storage import MemoryStore
+
+    from vp import c14
+    from vp import harness as H
+    from vp.grid import prod
+
+    labels = {"rechunk-plan", "irregular-allowed" if case["allow_irregular"] else "regular-only"}
+    scratch = c01.Scratch.fresh("c16r")
+    fails = []
+    try:
+        spec0, budget = c14._mk_spec(case)
+        work_dir = os.path.join(scratch, "work")
+        ts = H.TraceStore(MemoryStore())
+        rec = H.RecordingExecutor(H.make_executor("single-threaded"))
+        kw = dict(allowed_mem=spec0.allowed_mem, reserved_mem=0, executor=rec)
+        if case["compressor"] == "none":
+            kw["zarr_compressor"] = None
+        use_trace = case.get("factor", 1) % 2 == 1
+        spec = cubed.Spec(intermediate_store=ts, **kw) if use_trace else cubed.Spec(work_dir=work_dir, **kw)
+        shape = tuple(case["shape"])
+        dtype = c14.DTYPES_BY_ITEMSIZE[case["itemsize"]]
+
+        def effects(where):
+            if rec.entered:
+                fails.append(Failure(f"executed:{where}", f"executor entered during {where}"))
+            if use_trace:
+                w = ts.state.writes()
+                if w:
+                    fails.append(Failure(f"store-write:{where}", f"{len(w)} writes during {where}, e.g. {w[0][1]} {w[0][2]}"))
+            else:
+                st_ = _dir_state(work_dir)
+                if st_ not in ("absent", "empty"):
+                    fails.append(Failure(f"workdir-touched:{where}", f"work_dir has {st_} after {where}"))
+
+        with warnings.catch_warnings():
+            warnings.simplefilter("ignore")
+            try:
+                x = xp.ones(shape, dtype=getattr(xp, dtype), chunks=tuple(case["src"]), spec=spec)
+                k2 = {} if case["min_mem"] is None else {"min_mem": case["min_mem"]}
+                y = x.rechunk(tuple(case["tgt"]), allow_irregular=case["allow_irregular"], **k2)
+            except Exception as e:
+                labels.add(f"declined:{type(e).__name__}")
+                return Outcome(labels=tuple(labels))
+            effects("rechunk-build")
+            try:
+                fp = y.plan()
+                n = len([1 for _, d in fp.dag.nodes(data=True) if d.get("op_name") == "rechunk"])
+                labels.add(f"rechunk-copies={min(n, 4)}")
+                if any(isinstance(c, (tuple, list)) for _, d in fp.dag.nodes(data=True) if d.get("type") == "array" and d.get("target") is not None for c in (getattr(d["target"], "chunks", ()) or ())):
+                    labels.add("irregular-grid")
+                fp.num_tasks, fp.max_projected_mem(), fp.total_nbytes_written
+            except Exception as e:
+                labels.add(f"plan-raised:{type(e).__name__}")
+            effects("rechunk-plan")
+            if not fails:
+                try:
+                    y.visualize(filename=os.path.join(scratch, "viz"), format="dot")
+                    repr(y)
+                    if hasattr(y, "_repr_html_"):
+                        y._repr_html_()
+                    (y + 1).plan(optimize_graph=False)
+                except Exception as e:
+                    labels.add(f"visualize-raised:{type(e).__name__}")
+                effects("rechunk-visualize")
+        seen, uniq = set(), []
+        for f in fails:
+            if f.bucket not in seen:
+                seen.add(f.bucket)
+                uniq.append(f)
+        return Outcome(nontrivial=any(l.startswith("rechunk-copies=") and l != "rechunk-copies=0" for l in labels), labels=tuple(labels), failures=tuple(uniq))
+    finally:
+        shutil.rmtree(scratch, ignore_errors=True)
+
+
 def check_case(case) -> Outcome:
+    if case.get("kind") == "real":
+        return check_rechunk_plan(case)
     import cubed
     from zarr.storage import MemoryStore
 
@@ -144,6 +224,18 @@ def check_case(case) -> Outcome:
                         S.build_sinks([{"node": prog["outputs"][-1], "cls": "fresh", "api": "store"}], arrs, sink_ctx, spec)
                     elif act == "to_zarr-lazy":
                         S.build_sinks([{"node": prog["outputs"][-1], "cls": "fresh", "api": "to_zarr"}], arrs, sink_ctx, spec)
+                    elif act == "region-lazy-path":
+                        # lazy region store (explicit slices over the whole extent) into a path that does not exist yet
+                        a = outs[-1]
+                        if a.ndim >= 1 and a.size > 0:
+                            ts_new = sink_ctx.new_store()
+                            reg = tuple(slice(0, n) for n in a.shape)
+                            lz = cubed.to_zarr(a, ts_new, path="region-target", region=reg, compute=False)
+                            if any(r[1] in ("set", "set_if_not_exists") for r in ts_new.state.log):
+                                fails.append(Failure("lazy-target-created:region-lazy-path", "a lazy region store wrote to its not-yet-existing target while being built"))
+                            lz.plan()
+                            if any(r[1] in ("set", "set_if_not_exists") for r in ts_new.state.log):
+                                fails.append(Failure("lazy-target-created:region-lazy-path", "planning a lazy region store wrote to its target"))
                     elif act == "rechunk":
                         a = outs[-1]
                         if a.ndim and a.size:
@@ -213,8 +305,10 @@ def check_case(case) -> Outcome:
 
 def shards(tier):
     if tier == "quick":
-        return [{"kind": "program", "name": f"s{i}", "n": 55, "rotate": 23 + i * 53, "max_ops": 1 if i < 3 else 4} for i in range(8)]
-    return [{"kind": "program", "name": f"s{i}", "n": 900, "rotate": 23 + i * 53, "max_ops": 1 if i < 5 else 4} for i in range(16)]
+        return [{"kind": "program", "name": f"s{i}", "n": 55, "rotate": 23 + i * 53, "max_ops": 1 if i < 3 else 4} for i in range(7)] + [
+            {"kind": "rechunk-plan", "name": "rp0", "n": 160}]
+    return [{"kind": "program", "name": f"s{i}", "n": 900, "rotate": 23 + i * 53, "max_ops": 1 if i < 5 else 4} for i in range(14)] + [
+        {"kind": "rechunk-plan", "name": f"rp{i}", "n": 2500} for i in range(2)]
 
 
 def run_shard(spec, seed, tier) -> Acc:
@@ -222,6 +316,12 @@ def run_shard(spec, seed, tier) -> Acc:
     if spec["kind"] == "__corpus__":
         return core.corpus_shard(sys.modules[__name__], acc)
     is_known, _ = core.known_matcher(ID)
+    if spec["kind"] == "rechunk-plan":
+        from vp import c14
+
+        core.hyp_run(c14.real_cases(max_side=160, max_elems=24000), check_case, seed=seed, max_examples=spec["n"], acc=acc,
+                     budget_s=420 if tier == "quick" else 3000, shrink=(tier == "thorough"), is_known=is_known)
+        return acc
     core.hyp_run(case_strategy({"rotate": spec.get("rotate", 0)}, max_ops=spec.get("max_ops", 4)), check_case, seed=seed, max_examples=spec["n"], acc=acc,
                  budget_s=420 if tier == "quick" else 3000, shrink=(tier == "thorough"), is_known=is_known)
     from vp import ir
